@@ -1,6 +1,7 @@
 package vc
 
 import (
+	"os"
 	"fmt"
 	"go/token"
 	"go/types"
@@ -139,6 +140,9 @@ func (x *Exec) invoke(fr *Frame, st *State, c *ssa.CallCommon, recv Value, args 
 				outs = append(outs, x.callFn(fr, s2, fn, append([]Value{rv}, args...), nil, pos)...)
 			}
 			st.assume(And(notAny...))
+			if os.Getenv("VCHECK_DEBUG") != "" {
+				fmt.Fprintf(os.Stderr, "  [invoke split %s: %d candidates, %d candidate outcomes]\n", c.Method.Name(), len(cands), len(outs))
+			}
 			name := "(" + typeName(recv.T) + ")." + c.Method.Name()
 			x.logCall(st, name, append([]Value{recv}, args...))
 			outs = append(outs, x.unknownCall(fr, st, "interface method "+name, c.Signature(), append([]Value{recv}, args...), false)...)
@@ -147,9 +151,26 @@ func (x *Exec) invoke(fr *Frame, st *State, c *ssa.CallCommon, recv Value, args 
 	}
 	// interface method contract?
 	name := "(" + typeName(recv.T) + ")." + c.Method.Name()
+	if fr.depth == 0 && !st.dry && !x.inInit {
+		if tfc := x.contracts[contractKey(x.top)]; tfc != nil {
+			for _, oc := range tfc.OnCall {
+				if oc.Type == name {
+					bound := map[string]Value{"arg0": recv}
+					for i, a := range args {
+						bound[fmt.Sprintf("arg%d", i+1)] = a
+					}
+					g := x.evalSpec(&specScope{x: x, fr: fr, st: st, old: fr.entry, bound: bound}, oc.Expr)
+					x.oblige(fr, st, "call", x.src(fr.fn, pos, "invoke")+":"+oc.Label, pos, g.L[0])
+				}
+			}
+		}
+	}
 	x.logCall(st, name, append([]Value{recv}, args...))
 	if m, ok := x.models[name]; ok {
 		return m(x, fr, st, append([]Value{recv}, args...), pos)
+	}
+	if fc := x.contracts[name]; fc != nil {
+		return x.invokeContract(fr, st, name, c, fc, recv, args, pos)
 	}
 	if pureIfaceMethods[name] {
 		var rets []Value
@@ -280,6 +301,7 @@ func (x *Exec) unknownCall(fr *Frame, st *State, name string, sig *types.Signatu
 		st.calls = map[string][]Value{}
 	}
 	st.calls[strings.TrimPrefix(name, "interface method ")+"#ret"] = rets
+	x.countOK(st, strings.TrimPrefix(name, "interface method "), rets)
 	return []Outcome{{St: st, Kind: OutReturn, Rets: rets}}
 }
 
@@ -610,8 +632,9 @@ func (x *Exec) callContract(fr *Frame, st *State, fn *ssa.Function, fc *FuncCont
 		}
 	}
 	for _, k := range sortedKeys(st.ghost) {
-		if strings.HasPrefix(k, "ncalls:") && (may == nil || may[strings.TrimPrefix(k, "ncalls:")]) {
-			st.ghost[k] = x.c.Fresh("ghost_ncalls", idxSort)
+		if (strings.HasPrefix(k, "ncalls:") && (may == nil || may[strings.TrimPrefix(k, "ncalls:")])) ||
+			(strings.HasPrefix(k, "nok:") && (may == nil || may[strings.TrimPrefix(k, "nok:")])) {
+			st.ghost[k] = x.freshCounter(st)
 			if st.written != nil {
 				if st.written.ghost == nil {
 					st.written.ghost = map[string]bool{}
@@ -655,8 +678,108 @@ func (x *Exec) callContract(fr *Frame, st *State, fn *ssa.Function, fc *FuncCont
 			st.assume(v.L[0])
 		}()
 	}
+	x.countOK(st, contractKey(fn), rets)
 	outs := []Outcome{{St: st, Kind: OutReturn, Rets: rets}}
 	return outs
+}
+
+// invokeContract applies the (assumed) contract of an interface method at a call site: the implementation
+// behind the interface is not verified against it; the contract is part of the trusted base and is listed.
+// Parameters are named as in the interface declaration (recv for the receiver).
+func (x *Exec) invokeContract(fr *Frame, st *State, name string, c *ssa.CallCommon, fc *FuncContract, recv Value, args []Value, pos token.Pos) []Outcome {
+	x.usedContracts[name] = true
+	x.c.note("assumed contract of interface method %s (implementations not verified against it)", name)
+	pre := st.clone()
+	sig := c.Signature()
+	bound := map[string]Value{"recv": recv}
+	for i := 0; i < sig.Params().Len() && i < len(args); i++ {
+		if n := sig.Params().At(i).Name(); n != "" && n != "_" {
+			bound[n] = args[i]
+		}
+		bound[fmt.Sprintf("arg%d", i)] = args[i]
+	}
+	cfr := &Frame{fn: fr.fn, env: fr.env, names: map[string]ssa.Value{}, loopSnap: map[*ssa.BasicBlock]*loopSnap{}, loopIter: map[*ssa.BasicBlock]int{}, fc: fc, entry: pre, depth: fr.depth + 1}
+	for _, rq := range fc.Requires {
+		v := x.evalSpec(&specScope{x: x, fr: cfr, st: st, old: pre, bound: bound}, rq.Expr)
+		x.oblige(fr, st, "pre", x.src(fr.fn, pos, "invoke")+"~"+c.Method.Name()+":"+rq.Label, pos, v.L[0])
+		st.assume(v.L[0])
+	}
+	if fc.ModAll {
+		x.frameWrite(st, "*", nil)
+		x.havocHeap(st)
+		for _, k := range sortedKeys(st.calls) {
+			if k != name && k != name+"#ret" {
+				delete(st.calls, k)
+			}
+		}
+		for _, k := range sortedKeys(st.ghost) {
+			if (strings.HasPrefix(k, "ncalls:") && k != "ncalls:"+name) || (strings.HasPrefix(k, "nok:") && k != "nok:"+name) {
+				st.ghost[k] = x.freshCounter(st)
+			}
+		}
+	} else if len(fc.Modifies) > 0 {
+		unsup("interface method contract %s: only 'modifies *' or no modifies clause is supported", name)
+	}
+	x.bumpAlloc(st)
+	var rets []Value
+	res := sig.Results()
+	scope := &specScope{x: x, fr: cfr, st: st, old: pre, results: map[string]Value{}, bound: bound, assumeMode: true}
+	for i := 0; i < res.Len(); i++ {
+		rv := x.freshValue(st, "r_"+c.Method.Name(), res.At(i).Type())
+		rets = append(rets, rv)
+		if n := res.At(i).Name(); n != "" && n != "_" {
+			scope.results[n] = rv
+		}
+		scope.results[fmt.Sprintf("result%d", i)] = rv
+		if res.Len() == 1 {
+			scope.results["result"] = rv
+		}
+	}
+	if st.calls == nil {
+		st.calls = map[string][]Value{}
+	}
+	st.calls[name+"#ret"] = rets
+	for _, en := range fc.Ensures {
+		v := x.evalSpec(scope, en.Expr)
+		st.assume(v.L[0])
+	}
+	x.countOK(st, name, rets)
+	return []Outcome{{St: st, Kind: OutReturn, Rets: rets}}
+}
+
+// countOK maintains the ghost counter nok:<name>: the number of calls so far whose last result was a nil
+// error (or true, for a boolean last result) -- "successful" calls.
+func (x *Exec) countOK(st *State, name string, rets []Value) {
+	if len(rets) == 0 {
+		return
+	}
+	last := rets[len(rets)-1]
+	var ok *Term
+	switch {
+	case len(last.L) == 2 && types.IsInterface(last.T):
+		ok = Eq(last.L[0], IntLit(0))
+	case len(last.L) == 1 && last.L[0].S == SBool:
+		ok = last.L[0]
+	default:
+		return
+	}
+	if len(rets) >= 2 {
+		if first := rets[0]; len(first.L) == 1 && first.L[0].S == SBool {
+			ok = And(ok, first.L[0]) // (bool, error): successful means (true, nil)
+		}
+	}
+	k := "nok:" + name
+	cur, has := st.ghost[k]
+	if !has {
+		cur = BVLit64(0, 64)
+	}
+	st.ghost[k] = x.define(st, "nok", Ite(ok, BVBin("bvadd", cur, BVLit64(1, 64)), cur))
+	if st.written != nil {
+		if st.written.ghost == nil {
+			st.written.ghost = map[string]bool{}
+		}
+		st.written.ghost[k] = true
+	}
 }
 
 // mayCall returns the call-log names of the functions transitively reachable from fn through static
@@ -714,6 +837,12 @@ func (x *Exec) mayCall(fn *ssa.Function) map[string]bool {
 						full = o.String()
 					}
 					out[strings.ReplaceAll(full, modulePrefix, "")] = true
+					if tfc := x.contracts[contractKey(callee)]; tfc != nil && tfc.Trusted && !tfc.ModAll {
+						// a trusted contract is assumed to state the callee's effects completely (frame and
+						// ghost call log): its body is not searched for further calls
+						x.c.note("assumed: trusted callee %s makes no calls that matter to the ghost call log", shortFuncName(callee))
+						continue
+					}
 					if inModule(callee) && !isNoEffect(callee) {
 						walk(callee)
 					}
